@@ -56,6 +56,12 @@ def configs(tier):
             out.append(('dict', dict(wire=wire, validator=val)))
     for val in (None, 'soft'):
         out.append(('http', dict(validator=val)))
+    # applications whose output protocol is of another family than the input protocol (the fault travels in the output
+    # protocol's format and takes its HTTP status rule)
+    out.append(('xml', dict(proto='soap11', validator='soft', out='json')))
+    out.append(('xml', dict(proto='xml', validator=None, out='soap11')))
+    out.append(('dict', dict(wire='json', validator='soft', out='soap11')))
+    out.append(('dict', dict(wire='yaml', validator=None, out='xml')))
     return out
 
 
@@ -101,10 +107,11 @@ class Runner(object):
     @property
     def label(self):
         h = self.h
+        o = ',out=%s' % h.out_name if getattr(h, 'out_name', None) else ''
         if self.fam == 'xml':
-            return '%s,validator=%s' % (h.proto, h.validator)
+            return '%s,validator=%s%s' % (h.proto, h.validator, o)
         if self.fam == 'dict':
-            return '%s,validator=%s' % (h.wire, h.validator)
+            return '%s,validator=%s%s' % (h.wire, h.validator, o)
         return 'http,validator=%s' % h.validator
 
     @property
@@ -150,9 +157,18 @@ class Runner(object):
                 r['ctx_code'] = str(o.fault.faultcode)
         return r
 
+    @property
+    def out_family(self):
+        return getattr(self.h, 'out_name', None) or self.family
+
     def decode_fault(self, out):
         if out is None:
             return None
+        oh = getattr(self.h, 'out_h', None)
+        if oh is not None:
+            # the fault is written by the output protocol: decode it with that family's decoder
+            sub = Runner('xml' if hasattr(oh, 'proto') else 'dict', oh, 'server')
+            return sub.decode_fault(out)
         try:
             if self.fam == 'http':
                 return out.decode('utf8', 'replace').split('\n', 1)[0] or None
@@ -211,7 +227,7 @@ def verdict(r, runner, mutated, res, casedoc, mkind):
         V('non-client-fault', code[:40], 'malformed request answered with a %s fault' % code)
         return 'non-client-fault'
     if r['status'] is not None:
-        soap = fam in ('soap11', 'soap12')
+        soap = runner.out_family in ('soap11', 'soap12')
         if soap and r['status'] != '500':
             V('http-status', 'soap-%s' % r['status'], 'SOAP fault sent with HTTP %s' % r['status'])
             return 'http-status'
@@ -450,10 +466,19 @@ def corpus_entry(aid, pos, tier):
 
 def make(fam, cfg, program):
     if fam == 'xml':
-        return harness.XmlHarness(program, cfg['proto'], cfg['validator'])
-    if fam == 'dict':
-        return harness.DictHarness(program, cfg['wire'], cfg['validator'])
-    return harness.HttpHarness(program, cfg['validator'])
+        h = harness.XmlHarness(program, cfg['proto'], cfg['validator'])
+    elif fam == 'dict':
+        h = harness.DictHarness(program, cfg['wire'], cfg['validator'])
+    else:
+        return harness.HttpHarness(program, cfg['validator'])
+    if cfg.get('out'):
+        on = cfg['out']
+        h.out_h = harness.XmlHarness(program, on, None, built=h.b) if on in ('xml', 'soap11', 'soap12') else harness.DictHarness(program, on, None, built=h.b)
+        inp = harness.make_proto(cfg['proto'] if fam == 'xml' else cfg['wire'], cfg['validator'])
+        h.app = spec.make_app(h.b, inp, harness.make_proto(on))
+        h.srv = drv.make_server(h.app)
+        h.out_name = on
+    return h
 
 
 def run_shard(shard, only=None):
